@@ -1,3 +1,4 @@
+import BalmProofs.OwnBridge
 import BalmProofs.JudgeExact
 import BalmProofs.WeakSpec
 import BalmProofs.JudgeSpec
